@@ -38,7 +38,7 @@ BOUNDS = {
 ASSUMPTIONS = [
   "reference solves are float64 NumPy on the float32 matrices MJWarp itself produced (no MuJoCo tolerance involved), M itself is "
   "additionally compared with MuJoCo's M under f32",
-  "backward-error bound 2e-5*(|M||x|+|b|) (inf-norms); forward-error bound max(2e-4, 2e-6*cond(M))*(1+|x*|) -- both calibrated on the unchanged tree",
+  "backward-error bound 2e-5*(|M||x|+|b|) (inf-norms); forward-error bound max(2e-5, 2e-7*cond(M))*(1+|x*|) -- both calibrated on the unchanged tree",
   "real values from curated alphabets (VERIF_SEED mod 4), structure exhaustive within the bounds",
   "fused paths (factor_solve_i / factor_solve_lu): 2 dense + 3 unit right-hand sides instead of all unit vectors",
   "CPU backend only",
@@ -230,7 +230,7 @@ class _Solve:
     self.maxback = max(self.maxback, back)
     if back > 2e-5:
       self.c.fail(f"{self.tag}:residual", f"{self.tag}:{name}:w{w}: |Ax-b|={res:.3g} backward error {back:.3g} > 2e-5 (cond {self.cond[w]:.3g})")
-    tol = max(2e-4, 2e-6 * self.cond[w])
+    tol = max(2e-5, 2e-7 * self.cond[w])
     fwd = float(np.abs(x - xs).max()) / (1.0 + float(np.abs(xs).max()))
     self.maxfwd = max(self.maxfwd, fwd / tol)
     if fwd > tol:
